@@ -848,7 +848,7 @@ class Run:
         if w is None:
             return None
         wire, nrep = w
-        meta = {"cid": cid, "kind": kind, "nrep": nrep, "jvars": jvars}
+        meta = {"cid": cid, "kind": kind, "nrep": nrep, "jvars": jvars, "own": [self.refl.var_ix[id(v)] for v in vs]}
         try:
             meta["rpn"] = [int(t) for t in expr.get_rpn(ndx)]
         except Exception as e:
@@ -923,6 +923,7 @@ class Run:
         self.m.cd = A.ConstraintDict()
         self.builder = Builder(E, self.vars, self.params, self.shared)
         self.refl = Reflect(E, self.vars, self.params)
+        self.dirty = True
         self.live = {}   # cid -> dict(term, con, path, conditional, vars(list of indices), params, floats)
         self.mops.append(("reset",))
         for k, x in enumerate(vv):
@@ -968,6 +969,7 @@ class Run:
             self.fail(key, "registering a constraint with a valid expression raised %s: %s" % (type(e).__name__, e), i, term=term, cid=cid)
             raise Stop()
         self.count("registered")
+        self.dirty = True
         # what the Python layer hands to the evaluator, recomputed independently of Model's own records
         if conditional:
             vs, ps, fs = [], [], []
@@ -1012,6 +1014,7 @@ class Run:
             self.fail("remove-exception-%s" % type(e).__name__, "removing a constraint raised %s: %s" % (type(e).__name__, e), i, cid=cid)
             raise Stop()
         self.count("removed")
+        self.dirty = True
         self.mops.append(("del", cid))
 
     def op_setv(self, i, k, x, kind="value"):
@@ -1032,6 +1035,7 @@ class Run:
             self.fail("set_structure-exception", "set_structure raised %s: %s" % (type(e).__name__, e), i)
             raise Stop()
         self.count("set_structure")
+        self.dirty = False
         self.mops.append(("struct",))
 
     def op_loadx(self, i, nv):
@@ -1056,6 +1060,8 @@ class Run:
 
     def op_badcheck(self, i):
         """evaluate without a structure: must be refused, not crash or return garbage"""
+        if not self.dirty:
+            return self.op_check(i)   # the add/remove that preceded folded away: the structure is still valid
         try:
             self.m.evaluate_residuals()
             self.fail("evaluate-without-structure", "evaluate_residuals() on a model whose structure is not set did not raise", i)
@@ -1264,3 +1270,527 @@ class Run:
         self.fail(key, "%s of constraint %d%s: evaluator %r, true %r%s" % (
             what, cid, "" if var is None else " w.r.t. var %d" % var, got, want, (" [" + why + "]") if why else ""),
             i, cid=cid, var=var, observed=got, expected=want, term=rec["term"], values={"vars": list(self.vv), "params": list(self.pv)})
+
+
+# ----------------------------------------------------------------------------- Lean side
+
+
+def parse_fields(line):
+    out = {}
+    for f in line.split(";"):
+        k, _, v = f.partition(":")
+        out[k] = v
+    return out
+
+
+def sval_tree(sv):
+    if sv is None:
+        return None
+    return ("const", sv[1]) if sv[0] == "num" else sv[1]
+
+
+def phase2_lines(run, p1):
+    """M-level op lines; the Jacobian trees of each branch are the Lean `reverseSd` results of phase 1"""
+    lines = []
+    for op in run.mops:
+        k = op[0]
+        if k == "reset":
+            lines.append("aml.reset")
+        elif k == "setv":
+            lines.append("aml.setv %d %s" % (op[1], bits(op[2])))
+        elif k == "setp":
+            lines.append("aml.setp %d %s" % (op[1], bits(op[2])))
+        elif k == "del":
+            lines.append("aml.del %d" % op[1])
+        elif k == "struct":
+            lines.append("aml.struct")
+        elif k == "loadx":
+            lines.append("aml.loadx X%d %s" % (len(op[1]), " ".join(bits(x) for x in op[1])))
+        elif k == "check":
+            if op[1] == "bad":
+                lines.append("aml.check C0 V0 P0 F0")
+            else:
+                cids, fids = op[2], op[3]
+                lines.append("aml.check C%d %s V%d %s P%d %s F%d %s" % (len(cids), " ".join(map(str, cids)), NV, " ".join(map(str, range(NV))),
+                                                                     NP, " ".join(map(str, range(NP))), len(fids), " ".join(map(str, fids))))
+        elif k == "add":
+            _, cid, cond, addr, va, pa, fids, brs = op
+            parts = []
+            for b in brs:
+                jac = []
+                for (v, _a) in va:
+                    if b["fn_line"] is None:
+                        t = ("const", Fraction(1 if b["leaf_var"] == v else 0))
+                    else:
+                        sv = parse_sval(p1[b["fn_line"]].get("d%d" % v, "none"))
+                        t = sval_tree(sv) or ("const", Fraction(0))
+                    jac.append("%d %s" % (v, tree_wire(t)))
+                parts.append("%s %s JAC%d %s" % (tree_wire(b["cond_tree"]), tree_wire(b["fn_tree"]), len(jac), " ".join(jac)))
+            lines.append("aml.add %d %d %d VA%d %s PA%d %s F%d %s BR%d %s" % (
+                cid, int(cond), addr, len(va), " ".join("%d:%d" % x for x in va), len(pa), " ".join("%d:%d" % x for x in pa),
+                len(fids), " ".join(map(str, fids)), len(parts), " ".join(parts)))
+        else:
+            raise ValueError(op)
+    return [" ".join(l.split()) for l in lines]
+
+
+def compare_expr(run, meta, f, broken, tag):
+    """E-level: Lean transliterations vs the real Python layer for one expression"""
+    def brk(name, detail):
+        broken.append(Broken("correspondence", "C15 expression layer: " + name, "%s\n%s" % (detail, tag)))
+
+    lean_rpn = None if f.get("rpn") in (None, "none") else [int(x) for x in f["rpn"].split(",") if x]
+    lean_rpnA = None if f.get("rpnA") in (None, "none") else [int(x) for x in f["rpnA"].split(",") if x]
+    if "rpn_exc" in meta or "ev_exc" in meta or "sd_exc" in meta:
+        run.fail("python-layer-exception", "get_rpn/evaluate/reverse_sd of a valid expression raised: %s" % (
+            meta.get("rpn_exc") or meta.get("ev_exc") or meta.get("sd_exc")), -1, cid=meta["cid"])
+        return
+    if f.get("wf") != "true":
+        brk("well-formedness", "reflected operator list is not well formed (operand used before it is defined)")
+        return
+    if lean_rpn != meta["rpn"]:
+        if lean_rpnA == meta["rpn"]:
+            run.count("explained:get_rpn_aliasing")
+            if meta.get("rpn_val") is not None and not close(meta["rpn_val"], meta["ev"], 1.0, 1e-9):
+                if not any(r["key"] == "get_rpn-aliased-list" for r in run.raw):
+                    run.fail("get_rpn-aliased-list", "get_rpn() of a %s expression of constraint %d evaluates (stack machine) to %r, expression.evaluate() = %r" % (
+                        meta["kind"], meta["cid"], meta["rpn_val"], meta["ev"]), -1, cid=meta["cid"], rpn=meta["rpn"], expected_rpn=lean_rpn)
+        else:
+            brk("get_rpn", "real get_rpn %s\nLean getRpn %s\nLean getRpnAliased %s" % (meta["rpn"], lean_rpn, lean_rpnA))
+    toks = f.get("tree", "none").split()
+    lt = parse_tree(toks)[0] if toks and toks[0] != "none" else None
+    if lt is None or not trees_equal(lt, meta["tree"], 0.0):
+        brk("denote", "tree of the reflected operator list differs from amldump's tree of the object")
+    lev = None if f.get("ev") in (None, "none") else unbits(f["ev"])
+    if not close(lev, meta["ev"], 1.0, 1e-12):
+        brk("evaluate", "expression.evaluate() = %r, Lean pyEvaluate = %r" % (meta["ev"], lev))
+    levr = None if f.get("evrpn") in (None, "none") else unbits(f["evrpn"])
+    if not close(levr, lev, 1.0, 1e-12):
+        brk("evalRpn", "Lean evalRpn(getRpn) = %r, Lean pyEvaluate = %r" % (levr, lev))
+    for v in meta["jvars"]:
+        if "sd_tree" not in meta:
+            break
+        if v not in meta["own"]:
+            continue  # a variable of another branch of the conditional: `_deriv[v] = Float(0)` in the code, no entry in reverse_sd
+        sv = parse_sval(f.get("d%d" % v, "none"))
+        lt = sval_tree(sv)
+        dv = None if f.get("dv%d" % v) in (None, "none") else unbits(f["dv%d" % v])
+        dc = None if f.get("dc%d" % v) in (None, "none") else unbits(f["dc%d" % v])
+        DD = None if f.get("D%d" % v) in (None, "none") else unbits(f["D%d" % v])
+        real = meta["sd_val"][v]
+        scale = 1.0 + abs(dv or 0.0)
+        if not close(dv, DD, scale, 1e-9):
+            brk("reverseSd vs D", "Lean eval(reverseSd) = %r, Lean eval(D v (denote e)) = %r (var %d)" % (dv, DD, v))
+        same_struct = lt is not None and trees_equal(lt, meta["sd_tree"][v])
+        if same_struct:
+            run.count("sd_tree_identical")
+        elif real is not None and close(real, dv, scale, 1e-9):
+            # same value, different shape: python folded a native transcendental/real power eagerly (documented deviation)
+            run.count("sd_tree_differs_value_equal")
+        elif meta["nrep"] > 0 and real is not None and close(real, dc, scale, 1e-9):
+            run.count("explained:reverse_sd_repeats")
+        else:
+            brk("reverse_sd", "real reverse_sd()[v%d] = %s (value %r)\nLean reverseSd = %s (value %r; as coded %r)" % (
+                v, tree_wire(meta["sd_tree"][v]), real, f.get("d%d" % v), dv, dc))
+
+
+def compare_model(run, outs, broken, tag):
+    """M-level: Lean Model/Evaluator vs the real aml.Model at every check"""
+    def brk(name, detail):
+        broken.append(Broken("correspondence", "C15 bookkeeping layer: " + name, "%s\n%s" % (detail, tag)))
+
+    checks = [o for op, o in zip(run.mops, outs) if op[0] == "check"]
+    for op, out in zip(run.mops, outs):
+        if out.startswith("bad-op"):
+            raise vlib.Infra("AmlDriver rejected %r: %s" % (op[0], out))
+        if op[0] in ("add", "del", "struct", "loadx") and out != "ok":
+            brk(op[0], "Lean model answers %s where the implementation succeeded" % out)
+            return
+    for o, out in zip(run.obs, checks):
+        f = parse_fields(out)
+        if o["bad"]:
+            if f.get("res") != "structureNotSet":
+                brk("structure flag", "implementation refuses to evaluate (structure not set), Lean model: %s" % f.get("res"))
+            continue
+        if f.get("res") in ("structureNotSet", "machine") or f.get("jac") in ("structureNotSet", "machine"):
+            brk("evaluate", "Lean evaluator: res=%s jac=%s" % (f.get("res"), f.get("jac", "")[:40]))
+            continue
+        res = [unbits(x) for x in f["res"].split(",") if x]
+        jv, jc, jr = f["jac"].split("|")
+        jv = [unbits(x) for x in jv.split(",") if x]
+        jc = [int(x) for x in jc.split(",") if x]
+        jr = [int(x) for x in jr.split(",") if x]
+        vals, cols, rows = o["jac"]
+        scale = 1.0 + max([abs(x) for x in o["res"] + vals if math.isfinite(x)] + [0.0])
+        ints = lambda s: [None if x == "-" else int(x) for x in s.split(",") if x]
+        if ints(f["cidx"]) != o["cidx"]:
+            brk("con.index", "implementation %s, Lean %s" % (o["cidx"], f["cidx"]))
+        if ints(f["vidx"]) != o["vidx"]:
+            brk("var.index", "implementation %s, Lean %s" % (o["vidx"], f["vidx"]))
+        if jc != cols or jr != rows:
+            brk("CSR structure", "implementation col=%s row=%s, Lean col=%s row=%s" % (cols, rows, jc, jr))
+        elif len(jv) != len(vals) or any(not close(a, b, scale, 1e-10) for a, b in zip(jv, vals)):
+            brk("CSR values", "implementation %s, Lean %s" % (vals, jv))
+        if len(res) != len(o["res"]) or any(not close(a, b, scale, 1e-10) for a, b in zip(res, o["res"])):
+            brk("residuals", "implementation %s, Lean %s" % (o["res"], res))
+        if ints(f["rc"]) != o["rc"]:
+            brk("_refcounts", "implementation %s, Lean %s" % (o["rc"], f["rc"]))
+        if ints(f["live"]) != o["live"]:
+            brk("_c_obj", "implementation %s, Lean %s" % (o["live"], f["live"]))
+        if [unbits(x) for x in f["vv"].split(",") if x] != o["vv"] or [unbits(x) for x in f["pv"].split(",") if x] != o["pv"]:
+            brk("leaf values", "implementation vars %s params %s, Lean %s / %s" % (o["vv"], o["pv"], f["vv"], f["pv"]))
+        if [unbits(x) for x in f["x"].split(",") if x] != o["x"]:
+            brk("get_x", "implementation %s" % o["x"])
+
+
+# ----------------------------------------------------------------------------- overload folding stream
+
+
+def gen_fold(rng, depth):
+    if depth <= 0 or rng.random() < 0.3:
+        r = rng.random()
+        if r < 0.4:
+            return ("n", rng.choice([0.0, 1.0, 0.0, 1.0, 2.0, -1.0, 0.5, 3.0, -2.5]))
+        if r < 0.6:
+            return ("F", rng.choice([2.0, 0.5, -1.5, 3.0, 1.0]))
+        if r < 0.85:
+            return ("v", rng.randrange(3))
+        return ("p", rng.randrange(2))
+    r = rng.random()
+    if r < 0.7:
+        return ("B", rng.choice(BINOPS), gen_fold(rng, depth - 1), gen_fold(rng, depth - 1))
+    if r < 0.85:
+        return ("U", rng.choice(["neg", "abs", "sign", "sin", "exp", "cos", "atan"]), gen_fold(rng, depth - 1))
+    return ("I", ("Q", gen_fold(rng, depth - 1), rng.choice([None, 0.0, 1.0]), rng.choice([None, 2.0])), gen_fold(rng, depth - 1), gen_fold(rng, depth - 1))
+
+
+def fold_wire(t):
+    k = t[0]
+    if k == "n":
+        return "n" + rat(Fraction(t[1]))
+    if k == "F":
+        return "F" + rat(Fraction(t[1]))
+    if k in ("v", "p"):
+        return "%s%d" % (k, t[1])
+    if k == "B":
+        return "B%s %s %s" % (t[1], fold_wire(t[2]), fold_wire(t[3]))
+    if k == "U":
+        return "U%s %s" % (t[1], fold_wire(t[2]))
+    if k == "Q":
+        ob = lambda b: "n" if b is None else rat(Fraction(b))
+        return "Q %s %s %s" % (fold_wire(t[1]), ob(t[2]), ob(t[3]))
+    return "I %s %s %s" % tuple(fold_wire(s) for s in t[1:])
+
+
+class NotRational(Exception):
+    pass
+
+
+def fold_real(E, t, vs, ps):
+    """apply the real overloads; NotRational when python computes a native transcendental / real power (outside the Rat model)"""
+    k = t[0]
+    if k == "n":
+        return float(t[1])
+    if k == "F":
+        return E.Float(float(t[1]))
+    if k == "v":
+        return vs[t[1]]
+    if k == "p":
+        return ps[t[1]]
+    native = lambda x: type(x) in (int, float, bool) or isinstance(x, E.Float)
+    if k == "B":
+        a, b = fold_real(E, t[2], vs, ps), fold_real(E, t[3], vs, ps)
+        if t[1] == "pow" and native(a) and native(b):
+            bv = b.value if isinstance(b, E.Float) else b
+            if not (float(bv).is_integer() and bv >= 0):
+                raise NotRational()
+        return {"add": lambda: a + b, "sub": lambda: a - b, "mul": lambda: a * b, "div": lambda: a / b, "pow": lambda: a ** b}[t[1]]()
+    if k == "U":
+        a = fold_real(E, t[2], vs, ps)
+        if native(a) and t[1] not in ("neg", "abs", "sign"):
+            raise NotRational()
+        return -a if t[1] == "neg" else getattr(E, t[1])(a)
+    if k == "Q":
+        b = fold_real(E, t[1], vs, ps)
+        if type(b) is bool:
+            raise NotRational()  # an inequality of a native truth value is not a valid call
+        return E.inequality(b, lb=t[2], ub=t[3])
+    c = fold_real(E, t[1], vs, ps)
+    return E.if_else(c, fold_real(E, t[2], vs, ps), fold_real(E, t[3], vs, ps))
+
+
+# ----------------------------------------------------------------------------- the check
+
+
+def run_history_real(wntr, hist, ctx=None):
+    return Run(wntr, hist, ctx).execute()
+
+
+def shrink(wntr, hist, key, budget=60):
+    """greedy removal of ops (and of whole constraints) while the same key reproduces on the real implementation"""
+    def fails(h):
+        try:
+            return any(r["key"] == key for r in run_history_real(wntr, h).raw)
+        except Exception:
+            return False
+
+    cur = list(hist)
+    changed = True
+    while changed and budget > 0:
+        changed = False
+        for i in range(len(cur) - 1, 0, -1):
+            if budget <= 0:
+                break
+            if cur[i][0] == "check" and i == len(cur) - 1:
+                continue
+            cand = cur[:i] + cur[i + 1:]
+            if cur[i][0] == "add":
+                cand = [op for op in cand if not (op[0] == "del" and op[1] == cur[i][1])]
+            budget -= 1
+            if fails(cand):
+                cur, changed = cand, True
+                break
+    # then shrink the terms: replace a (sub)term by one of its children, drop unused shared terms' bodies to leaves
+    def children(t):
+        if t[0] in ("bin", "un"):
+            return [x for x in t[2:]]
+        if t[0] == "ite":
+            return [t[2], t[3]]
+        if t[0] == "cond":
+            return [e for c, e in t[1]]
+        return []
+
+    def rewrites(t):
+        """terms one step smaller than t"""
+        for c in children(t):
+            yield c
+        if t[0] in ("bin", "un", "ite"):
+            for k in range(1 if t[0] == "ite" else 2, len(t)):
+                if isinstance(t[k], tuple) and t[k][0] not in ("ineq",):
+                    for r in rewrites(t[k]):
+                        yield t[:k] + (r,) + t[k + 1:]
+
+    changed = True
+    while changed and budget > 0:
+        changed = False
+        for i, op in enumerate(cur):
+            cands = []
+            if op[0] == "add":
+                cands = [cur[:i] + [("add", op[1], r, op[3])] + cur[i + 1:] for r in rewrites(totuple(op[2]))]
+            elif op[0] == "init":
+                sh = [totuple(x) for x in op[3]]
+                for k, t in enumerate(sh):
+                    for r in rewrites(t):
+                        if r[0] in ("bin", "un", "ite"):
+                            cands.append([("init", op[1], op[2], sh[:k] + [r] + sh[k + 1:])] + cur[1:])
+            for cand in cands:
+                if budget <= 0:
+                    break
+                budget -= 1
+                if fails(cand):
+                    cur, changed = cand, True
+                    break
+            if changed:
+                break
+    return cur
+
+
+class C15(Check):
+    pid = "C15"
+    level = "proof"
+    prop_modules = ["WntrModel.Props.C15"]
+    extra_targets = ["WntrModel.Model.AmlModel"]
+    manifest = dict(
+        category="proof",
+        text="Lean theorems for all expression trees, all operator lists (with repeated operators) and all add/remove histories: "
+        "the RPN the Python layer emits, run by the C++ stack machine, equals direct evaluation (rpn_correct, getRpn_correct); the overload "
+        "shortcuts preserve values (constant_folding_sound); reverse_sd equals the formal derivative D (reverseSd_is_derivative); reference counts, "
+        "C-object liveness, value preservation and index numbering are invariants of every history (registration_refcount_inv, set_structure_indices). "
+        "The models are tied to the code on every run: reflected operator lists / trees / RPN / derivative trees and whole Model histories are "
+        "replayed through the Lean driver and diffed against the real aml.Model with the evaluator compiled from the tree's C++ sources; an independent "
+        "dual-number oracle judges residuals, Jacobian, indices and reference counts on the implementation.",
+        design_ref="DESIGN.md §5 C15, §4 M6",
+        note="modelled, not verified: IEEE arithmetic and libm (theorems are over a field with abstract pow/exp/log/trig; Float only in the driver, "
+        "compared at 1e-10..1e-12 relative); pointer order of std::set is an abstract address order fed from the real pointers; Float leaves are "
+        "represented by value inside the C++ constraint model; SWIG marshalling is exercised, not modelled; that D is the analytic derivative is proved "
+        "for the polynomial/rational fragment only",
+        technique="Lean 4 proofs over hand models + differential runs against the Lean driver + independent oracle on the implementation",
+    )
+    rule = (
+        "obligations: theorems of Props/C15.lean. correspondence cases: one per (constraint, value assignment) judged by the oracle at a check op; "
+        "distinct = distinct (intended term, values); every case is non-trivial (has at least one leaf; constants-only constraints are skipped)"
+    )
+    trusted_base = [
+        "harness/props/c15.py (reflection of operator lists by object identity, dual-number oracle) and harness/translate/amldump.py",
+        "Lean Float = IEEE double with the platform libm (driver only)",
+        "g++/CPython/SWIG for the freshly compiled evaluator",
+    ]
+    assumptions = [
+        "values stay inside the domain of definition with a margin (denominators/log arguments >= 0.05, |asin/acos argument| <= 0.9, |cos| >= 0.2 under tan, magnitudes <= 1e6)",
+        "at an abs/sign kink the Jacobian is not judged; at a branch boundary the closed side is the selected branch",
+        "a conditional constraint always has a final (else) expression",
+    ]
+
+    def translate(self, ctx):
+        pass
+
+    # -- one batch: real runs, two driver passes, comparisons
+    def batch(self, ctx, hists, tags):
+        wntr = vlib.import_wntr()
+        runs = []
+        for h in hists:
+            runs.append(Run(wntr, h, ctx).execute())
+        broken, failures = [], []
+        # phase 1
+        lines, owner = [], []
+        for ri, r in enumerate(runs):
+            for li, l in enumerate(r.expr_lines):
+                lines.append(l)
+                owner.append((ri, li))
+        out = vlib.lean_run("Drivers/AmlDriver.lean", "\n".join(lines) + "\n") if lines else []
+        if len(out) != len(lines):
+            raise vlib.Infra("AmlDriver returned %d lines for %d requests" % (len(out), len(lines)))
+        p1 = [dict() for _ in runs]
+        for (ri, li), o, l in zip(owner, out, lines):
+            if o.startswith("bad-op"):
+                raise vlib.Infra("AmlDriver rejected an expr line: %s\n%s" % (o, l[:300]))
+            p1[ri][li] = parse_fields(o)
+        for ri, r in enumerate(runs):
+            for li, meta in enumerate(r.expr_meta):
+                compare_expr(r, meta, p1[ri][li], broken, "history %s, expr line: %s" % (tags[ri], r.expr_lines[li][:400]))
+        # phase 2
+        lines, spans = [], []
+        for ri, r in enumerate(runs):
+            ls = phase2_lines(r, p1[ri])
+            spans.append((len(lines), len(lines) + len(ls)))
+            lines += ls
+        out = vlib.lean_run("Drivers/AmlDriver.lean", "\n".join(lines) + "\n") if lines else []
+        if len(out) != len(lines):
+            raise vlib.Infra("AmlDriver returned %d lines for %d requests" % (len(out), len(lines)))
+        for ri, r in enumerate(runs):
+            a, b = spans[ri]
+            compare_model(r, out[a:b], broken, "history %s" % tags[ri])
+        for ri, r in enumerate(runs):
+            seen = set()
+            for raw in r.raw:
+                if raw["key"] in seen:
+                    continue
+                seen.add(raw["key"])
+                failures.append((raw, hists[ri], tags[ri]))
+        return runs, failures, broken
+
+    def correspondence(self, ctx):
+        wntr = vlib.import_wntr()
+        rng = ctx.rng
+        hists, tags = [], []
+        for fn, item in vlib.corpus_items("C15"):
+            hists.append([totuple(op) for op in item["history"]])
+            tags.append("corpus/" + fn)
+        n = 150 if ctx.quick else 1200
+        for k in range(n):
+            hists.append(make_history(rng, ctx.quick))
+            tags.append("seed%d/%d" % (ctx.seed, k))
+        runs, fails, broken = self.batch(ctx, hists, tags)
+        failures = []
+        done = set()
+        for raw, h, tag in fails:
+            if raw["key"] in done:
+                continue
+            done.add(raw["key"])
+            small = shrink(wntr, h, raw["key"], budget=250 if ctx.quick else 600)
+            rr = [x for x in run_history_real(wntr, small).raw if x["key"] == raw["key"]]
+            best = rr[0] if rr else raw
+            failures.append(Failure(raw["key"], best["what"], {"history": small, "from": tag, "detail": best["detail"], "op_index": best["op_index"]}))
+        # samples for the evidence
+        for r in runs[:3]:
+            for o in r.obs[:1]:
+                if not o.get("bad"):
+                    ctx.sample({"constraints": {c: json.dumps(r.live[c]["term"], default=str)[:200] for c in o["cids"] if c in r.live},
+                                "con.index": o["cidx"], "var.index": o["vidx"], "residuals": o["res"], "csr": o["jac"]})
+        failures += self.fold_stream(ctx, broken)
+        # only a few Broken records are kept (one per name)
+        uniq = {}
+        for b in broken:
+            uniq.setdefault(b.name, b)
+        ctx.cov["histories"] = len(hists)
+        ctx.cov["expr_lines"] = sum(len(r.expr_lines) for r in runs)
+        return failures, list(uniq.values())
+
+    def fold_stream(self, ctx, broken):
+        wntr = vlib.import_wntr()
+        import wntr.sim.aml.expr as E
+
+        rng = ctx.rng
+        vs = [E.Var(1.0) for _ in range(3)]
+        ps = [E.Param(1.0) for _ in range(2)]
+        refl = Reflect(E, vs, ps)
+        n = 300 if ctx.quick else 3000
+        terms, reals = [], []
+        for _ in range(n):
+            t = gen_fold(rng, rng.choice([1, 2, 2, 3]))
+            try:
+                r = fold_real(E, t, vs, ps)
+                if type(r) is complex:
+                    continue
+                real = ("num", float(r)) if type(r) in (int, float, bool) else ("ex", refl.tree(r))
+            except NotRational:
+                continue
+            except (ZeroDivisionError, ValueError, OverflowError):
+                real = None
+            except AssertionError:
+                continue  # `if_else` on a non-relational object: not a valid call
+            terms.append(t)
+            reals.append(real)
+        out = vlib.lean_run("Drivers/AmlDriver.lean", "\n".join("fold " + fold_wire(t) for t in terms) + "\n")
+        for t, real, o in zip(terms, reals, out):
+            ctx.count("fold:" + ("error" if real is None else real[0]))
+            model = parse_sval(o)
+            ok = (model is None) == (real is None)
+            if ok and model is not None:
+                if model[0] != real[0]:
+                    ok = False
+                elif model[0] == "num":
+                    ok = close(float(model[1]), real[1], 0.0, 1e-12)
+                else:
+                    ok = trees_equal(model[1], real[1])
+            if not ok:
+                broken.append(Broken("correspondence", "C15 overload folding", "term %s\nimplementation %s\nLean %s" % (fold_wire(t), real, o)))
+                break
+        return []
+
+    def search(self, ctx, broken):
+        """wider failing-input search on the real implementation only (oracle = dual numbers)"""
+        wntr = vlib.import_wntr()
+        found = {}
+        for k in range(400 if ctx.quick else 3000):
+            h = make_history(ctx.rng, False)
+            r = run_history_real(wntr, h)
+            for raw in r.raw:
+                if raw["key"] not in found:
+                    small = shrink(wntr, h, raw["key"], budget=60)
+                    rr = [x for x in run_history_real(wntr, small).raw if x["key"] == raw["key"]]
+                    best = rr[0] if rr else raw
+                    found[raw["key"]] = Failure(raw["key"], best["what"], {"history": small, "detail": best["detail"], "op_index": best["op_index"]})
+        return list(found.values())
+
+    def replay(self, ctx, path):
+        wntr = vlib.import_wntr()
+        r = json.load(open(path if os.path.isabs(path) else os.path.join(vlib.VERIF, path)))
+        rep = r.get("replay", {})
+        if "history" not in rep:
+            print(json.dumps(r, indent=1)[:3000])
+            print("replay: nothing to execute (no failing input was recorded)")
+            return 0
+        hist = [totuple(op) for op in rep["history"]]
+        for op in hist:
+            print("  op", json.dumps(op, default=str)[:400])
+        run = run_history_real(wntr, hist)
+        hit = [x for x in run.raw if x["key"] == r.get("key")]
+        for x in run.raw:
+            print("  observed:", x["key"], "-", x["what"][:400])
+        print("replay: %s" % ("REPRODUCED " + hit[0]["what"] if hit else "not reproduced on the current tree"))
+        return 1 if hit else 0
+
+
+if __name__ == "__main__":
+    vlib.run_check(C15)
